@@ -2,12 +2,14 @@ import Percival.Driver.Loop
 import Percival.Spec.Aes
 import Percival.Spec.Ctr
 import Percival.Model.AesCtr
+import Percival.Model.AesNi
 /-!
 `pmodel aes [hw]`: line protocol for crypto_aes.c / crypto_aesctr*.c (driver code, not part of any theorem).
 
 L1 part (before ` | `) = the *Spec's* answer: `Spec.Aes.cipher`/`keyExpansion` for `block`, and
 `Spec.Ctr.streamAt` at the driver's own byte position for `stream`/`streamzero`/`buf`.
-L2 part = the state of `Model.AesCtr` (`bytectr`, `pblk`, `buf`) — and, with `hw`, the round keys.
+L2 part = the state of `Model.AesCtr` (`bytectr`, `pblk`, `buf`) — and, with `hw`, the round keys and block
+ciphertexts computed by the instruction-level `Model.AesNi` (so the SDM transcription meets the real CPU).
 The model's own output bytes are compared with the Spec's on every call; a difference (impossible by
 `Properties/C02.lean`) is printed as `model!=spec`, which shows up as an L1 failure.
 
@@ -25,6 +27,7 @@ def enc (k : Key) (b : List UInt8) : List UInt8 := Aes.cipher k b
 structure St where
   hw : Bool := false
   key : Option Key := none             -- result of the last `expand`
+  nikey : Option AesNi.Key := none     -- the same key expanded by `Model.AesNi` (hw mode, L2)
   strm : Option (AesCtr.Stream Key) := none
   nonce : UInt64 := 0                  -- Spec-side bookkeeping
   pos : Nat := 0
@@ -62,12 +65,28 @@ def step (st : St) (toks : List String) : St × String :=
   | ["expand", k] =>
       match (bytesOfHex k).bind expandKey with
       | some rks =>
-        ({ st with key := some rks },
-         if st.hw then s!"ok | rk={hexOfBytes rks.flatten}" else "ok")
+        -- hw: L2 = the round keys computed by the instruction-level model of crypto_aes_aesni.c
+        let nik := (bytesOfHex k).bind AesNi.keyExpand
+        ({ st with key := some rks, nikey := nik },
+         if st.hw then
+           match nik with
+           | some nk => s!"ok | rk={hexOfBytes nk.rkeys.flatten}"
+           | none => "ok | rk=model-oob"
+         else "ok")
       | none => (st, "skip")
   | ["block", b] =>
       match st.key, bytesOfHex b with
-      | some rks, some blk => if blk.length = 16 then (st, hexOfBytes (Aes.cipher rks blk)) else (st, "skip")
+      | some rks, some blk =>
+        if blk.length = 16 then
+          let l1 := hexOfBytes (Aes.cipher rks blk)
+          if st.hw then
+            -- L2 = AESENC/AESENCLAST sequence of the instruction-level model
+            let ni := match st.nikey.bind (AesNi.encryptBlock blk) with
+              | some c => hexOfBytes c
+              | none => "model-oob"
+            (st, s!"{l1} | ni={ni}")
+          else (st, l1)
+        else (st, "skip")
       | _, _ => (st, "skip")
   | ["init", n] =>
       match st.key, n.toNat? with
